@@ -47,7 +47,8 @@ O0 == [mode |-> "", addition |-> "none", ignore_required |-> FALSE, no_default |
 Settings == {"mode=r", "mode=w", "addition=any", "addition=forbid", "addition=int", "ignore_required", "no_default", "force_default",
              "defer_default", "ignore_conflicts", "ci", "exclude", "minp=2", "maxp=1"}
 Clash(a, b) == a # b /\ ((a \in {"mode=r", "mode=w"} /\ b \in {"mode=r", "mode=w"}) \/
-                         (a \in {"addition=any", "addition=forbid", "addition=int"} /\ b \in {"addition=any", "addition=forbid", "addition=int"}))
+                         (a \in {"addition=any", "addition=forbid", "addition=int"} /\ b \in {"addition=any", "addition=forbid", "addition=int"}) \/
+                         {a, b} = {"no_default", "force_default"})                 \* refused by Options.__init__
 Opts(st) == [O0 EXCEPT !.mode = IF "mode=r" \in st THEN "r" ELSE IF "mode=w" \in st THEN "w" ELSE "",
                        !.addition = IF "addition=any" \in st THEN "any" ELSE IF "addition=forbid" \in st THEN "forbid" ELSE IF "addition=int" \in st THEN "int" ELSE "none",
                        !.ignore_required = "ignore_required" \in st, !.no_default = "no_default" \in st,
